@@ -144,6 +144,10 @@ type Plan struct {
 	Schedule   Schedule `json:"schedule"`
 	MapOrder   MapOrder `json:"mapOrder"`
 	ChildOrder string   `json:"childOrder"` // canonical | reversed | rotate:<k> | random:<salt>
+	// Plain: run a race-kernel plan with the plain (non -race) build of the worker: same
+	// serialised interleavings and isolation oracle, no race detection, ten times faster
+	// (heavy plans of the thorough tier).
+	Plain bool `json:"plain,omitempty"`
 	// Monitor: verify argument snapshots at every context switch (C10/C12).
 	Monitor      bool      `json:"monitor,omitempty"`
 	Uncontrolled []string  `json:"uncontrolled_sources,omitempty"`
